@@ -44,6 +44,8 @@ type scene struct {
 	ids []*m.Address
 	t   *vmesh.Topology
 	r   *rand.Rand
+	// foreign: a key pair no router of the scene owns (an attacker's)
+	foreign *m.Address
 }
 
 func helper(e *state.EncryptionSession) *state.EncryptionSessionTestHelper {
@@ -126,7 +128,7 @@ func buildScene(r *rand.Rand) (*scene, error) {
 			return nil, err
 		}
 	}
-	sc := &scene{ms: ms, ids: ids, t: t, r: r}
+	sc := &scene{ms: ms, ids: ids, t: t, r: r, foreign: env.NewIdentity(r, nil)}
 	if err := ms.Converge(r, false); err != nil {
 		return nil, err
 	}
@@ -566,6 +568,55 @@ func runScene(res *core.Result, r *rand.Rand, exhaustiveBits bool) {
 						}
 						if !check("replay-on-other-link", "whole-frame", P, other) {
 							return
+						}
+					}
+					if k.name != "disconnect-as-hop-ping" {
+						// the accepted frame once more, at once, with a changed message byte / a changed signature byte
+						mi := 49 + int(P[48])
+						ml := int(P[mi])<<8 | int(P[mi+1])
+						for _, pos := range []int{mi + 2 + r.IntN(max(ml, 1)), mi + 2 + ml + r.IntN(16)} {
+							if pos < len(P) {
+								d := append([]byte(nil), P...)
+								d[pos] ^= 1 << uint(r.IntN(8))
+								if !check("replay-immediate-tampered", fieldOf(P, pos), d, via) {
+									return
+								}
+							}
+						}
+					}
+					if k.name == "announce" {
+						// a fresh announcement of the same origin, extended by a hop record that names a router the
+						// victim knows (its peer on link 2) but carries and is signed with a foreign key
+						held2, err := sc.intercept(func() error { time.Sleep(1500 * time.Microsecond); return k.emit(sc, from) })
+						if err == nil {
+							for _, p2 := range held2 {
+								if netip.AddrFrom16([16]byte(p2.Data[16:32])) != src || len(p2.Data) < 49+int(p2.Data[48])+2 {
+									continue
+								}
+								Q := p2.Data
+								mi := 49 + int(Q[48])
+								end := mi + 2 + (int(Q[mi])<<8 | int(Q[mi+1])) + 64
+								if end > len(Q) {
+									continue
+								}
+								K := ms.Nodes[2].ID
+								att := router.AnnouncePingAttachment{Router: m.PublicAddress{IP: K.IP, Hash: K.Hash, Type: K.Type, PublicKey: sc.foreign.PublicKey}, Delay: 3, ForwardLabel: 21, ReturnLabel: 22}
+								ab, _ := cbor.Marshal(att)
+								ctx := make([]byte, 88)
+								copy(ctx[:16], Q[16:32])
+								copy(ctx[16:24], Q[8:16])
+								copy(ctx[24:], Q[end-64:end])
+								sig, serr := sc.foreign.SignWithContext(ab, ctx)
+								if serr != nil {
+									continue
+								}
+								forged := append(append(append([]byte(nil), Q[:end]...), ab...), sig...)
+								if !check("hop-record-of-known-router-with-foreign-key", "appendix", forged, 2) {
+									return
+								}
+								res.Count("forged_hop_records_for_known_router", 1)
+								break
+							}
 						}
 					}
 					if len(history) > 3 {
